@@ -309,6 +309,7 @@ def run(ctx):
     run_cyclic(ctx, ctx.budget(60, 1500))
     import e1werr   # E1_cycles: LP of kLeastAbsErrorsCycles == WalkErrEnc.encode_klae_cycles (harness/e1werr.py)
     e1werr.run_e1_cycles(ctx, "kLeastAbsErrorsCycles", rand_cyclic_err, ctx.budget(60, 1500), "lae-cyc-e1")
+    import gencheck_enc; gencheck_enc.run_generated_klae(ctx)   # generated-model tie: the kLeastAbsErrors encoders regenerated from source (coq/gen_proofs/EncKlae*.v)
 
 
 def replay(ctx, body):
